@@ -54,14 +54,21 @@ def forced_specs(seed, tier):
                 sp = gen.make_spec(rng, D=D, geom=rng.choice(["box", "x0_on_bound", "mixedlog"]), target=tgt, mode="det", cons=rng.choice([None, "slab"]))
                 sp["options"] = {"n_search": 32, "max_fun_evals": 40}
                 jobs.append(("degenerate_target", sp, {}))
+        # (f) the documented basic options, one at a time, in every mode
+        for mode in gen.MODES:
+            for key, val in (("noise_size", 0.5), ("noise_size", 1e-3), ("tol_mesh", 1e-3), ("tol_fun", 1e-2), ("max_iter", 3), ("noise_final_samples", 4), ("complete_poll", True)):
+                sp = gen.make_spec(rng, D=rng.choice([1, 2]), geom="box", mode=mode, cons=None)
+                sp["options"] = {"n_search": 32, "max_fun_evals": 25 if mode == "det" else 55, key: val}
+                jobs.append(("basic_option", sp, {}))
     return jobs
 
 
 def classify(t):
     """None if the run is fine for C09; else (clause, site, summary)."""
     e = t["error"]
-    if e is None or not t["constructed"]:
+    if e is None:
         return None
+    # a failure of BADS(...) itself counts too: every generated problem (bounds, start point, options) is a valid one
     if e["type"] in ("InjectedFault", "LoopBoundExceeded"):
         return None
     fr = e["innermost_pybads"] or e["innermost"]
